@@ -536,6 +536,14 @@ def _big(h):
     return h * 3
 
 
+def _check_sq(r):
+    """(free mode) the squared errors of the result are non-negative finite numbers - a wrapped square shows here"""
+    e = np.asarray(r.errors2, dtype=float)
+    if np.any(e < 0) or not np.all(np.isfinite(e)):
+        raise ArithmeticError(f"squared errors {e.ravel().tolist()}")
+    return r
+
+
 def _ipl(name):
     return lambda h, o: getattr(h, name)(o)
 
@@ -574,6 +582,14 @@ SITE_OPS = {
     "mul_list": lambda h: h * _ones(h).tolist(),
     "idiv_list": lambda h: h.__itruediv__(_ones(h).tolist()),
     "sub_tuple": lambda h: h - tuple(map(tuple, _ones(h))) if h.ndim > 1 else h - tuple(_ones(h)),
+    # array operands of narrow / unsigned element types (their squares and negatives leave the type)
+    "sub_arr_uint8": lambda h: h - np.ones(h.shape, dtype=np.uint8),
+    "isub_arr_uint16": lambda h: h.__isub__(np.ones(h.shape, dtype=np.uint16)),
+    "imul_arr_int8": lambda h: _check_sq(h.__imul__(np.full(h.shape, 12, dtype=np.int8))),
+    "mul_arr_int8_16": lambda h: _check_sq(h * np.full(h.shape, 16, dtype=np.int8)),
+    "idiv_arr_int8": lambda h: _check_sq(h.__itruediv__(np.full(h.shape, 16, dtype=np.int8))),
+    "iadd_arr_int8": lambda h: _check_sq(h.__iadd__(np.full(h.shape, 100, dtype=np.int8))),
+    "mul_arr_float16": lambda h: _check_sq(h * np.full(h.shape, 300.0, dtype=np.float16)),
 }
 
 # ways of establishing the mode in the current context: (name, mode in force inside)
